@@ -143,9 +143,9 @@ pub fn shrink(original: &Plan, recorded_schedule: Vec<u8>, violation: &Violation
                         progress = true;
                     }
                 }
-                if best.threads[t][i].fail_at > 1 {
+                if best.threads[t][i].fail_at & 0xff > 1 {
                     let mut c = best.clone();
-                    c.threads[t][i].fail_at = 1;
+                    c.threads[t][i].fail_at = (best.threads[t][i].fail_at & 0x100) | 1;
                     if attempt!(c) {
                         progress = true;
                     }
